@@ -212,6 +212,7 @@ class Cfg:
     # overrides of Cfg fields for the DESTINATION's remote entity configuration (e.g. {"ack_ms": 250, "nak_ms": 250})
     dst_over: dict | None = None
     alt_remote: dict | None = None
+    dst_alt_remote: dict | None = None   # a second SENDING entity known to the receiver ({"id":, "idw":, overrides ...})
     put_to_alt: bool = False      # the next put request addresses the alternative remote
 
 
@@ -457,9 +458,14 @@ class World:
             d_remote = remote_cfg(dataclasses.replace(c, **c.dst_over), c.src_id, c.src_idw)
         else:
             d_remote = remote_cfg(c, c.src_id, c.src_idw)
-        self.dst.h = DestHandler(d_local, du, RemoteEntityCfgTable([d_remote]), TimerProv(c.check_ms))
+        d_remotes = [d_remote]
+        if c.dst_alt_remote:
+            import dataclasses
+            over = {k: v for k, v in c.dst_alt_remote.items() if k not in ("id", "idw")}
+            d_remotes.append(remote_cfg(dataclasses.replace(c, **over), c.dst_alt_remote["id"], c.dst_alt_remote.get("idw", c.src_idw)))
+        self.dst.h = DestHandler(d_local, du, RemoteEntityCfgTable(d_remotes), TimerProv(c.check_ms))
         self.dst.ops.append([9, c.dst_id, c.dst_idw] + [int(x) for x in c.ind] +
-                            self._enc_faults(dfh) + [c.check_ms, 1] + enc_rcfg(d_remote))
+                            self._enc_faults(dfh) + [c.check_ms, len(d_remotes)] + [x for r in d_remotes for x in enc_rcfg(r)])
         self.dst.obs.append([])
 
     @staticmethod
